@@ -7,6 +7,8 @@ import (
 	"fmt"
 	"math"
 	"math/big"
+	"strconv"
+	"strings"
 	"testing"
 
 	"github.com/cockroachdb/apd/v3"
@@ -56,7 +58,32 @@ func genCase(t *rapid.T) arith.Case {
 	}
 	switch c.Op {
 	case "exp":
-		if gen.Pick(t, 10, "mult23") == 0 {
+		if gen.Pick(t, 14, "threshold") == 1 {
+			// arguments around ln of the overflow threshold 10^(MaxExponent+1) and of the
+			// underflow thresholds 10^MinExponent and 10^Etiny: "reported as overflowed or
+			// underflowed only if the exact value really lies outside the range"
+			emax := []int{0, 3, 96, 999, 9988, 9989, 20000, 65000, 100000}[gen.Pick(t, 9, "themax")]
+			emin := -[]int{0, 3, 95, 998, 9990, 20000, 65000, 100000}[gen.Pick(t, 8, "themin")]
+			c.Ctx.Emax, c.Ctx.Emin = int32(emax), int32(emin)
+			var k float64
+			switch gen.Pick(t, 3, "thwhich") {
+			case 0:
+				k = float64(emax + 1)
+			case 1:
+				k = float64(emin)
+			default:
+				k = float64(emin - int(c.Ctx.P) + 1)
+			}
+			k += float64(rapid.IntRange(-150, 50).Draw(t, "thd")) / 100
+			v := k * 2.302585092994046
+			str := strconv.FormatFloat(math.Abs(v), 'f', 9, 64)
+			str = strings.Replace(str, ".", "", 1)
+			str = strings.TrimLeft(str, "0")
+			if str == "" {
+				str = "1"
+			}
+			c.X = core.Dec{Coeff: str, Exp: -9, Neg: v < 0}
+		} else if gen.Pick(t, 10, "mult23") == 0 {
 			// Exp requires |x| <= 23 * (working precision): arguments at that boundary, which
 			// coincides with a context parameter, and a hair above it
 			k := int(c.Ctx.P) + rapid.IntRange(-1, 2).Draw(t, "k23")
@@ -78,7 +105,20 @@ func genCase(t *rapid.T) arith.Case {
 			c.X.Exp = -int32(len(c.X.Coeff) - len(fmt.Sprint(v)))
 		}
 	case "ln", "log10":
-		if gen.Pick(t, 8, "farexp") == 0 {
+		if gen.Pick(t, 300, "tinyeps") == 1 {
+			// 1 +/- 10^-k for k in the thousands and tens of thousands: the result is about
+			// +/-10^-k, far inside the range, but powers of the tiny difference are not
+			k := []int{1000, 5000, 20000, 33321, 33322, 33400, 45000}[gen.Pick(t, 7, "tek")] + rapid.IntRange(0, 3).Draw(t, "tekd")
+			if rapid.Bool().Draw(t, "teplus") {
+				c.X = core.Dec{Coeff: "1" + strings.Repeat("0", k-1) + "1", Exp: int32(-k)}
+			} else {
+				c.X = core.Dec{Coeff: strings.Repeat("9", k), Exp: int32(-k)}
+			}
+			c.Ctx.Emax, c.Ctx.Emin = gen.Limit, -gen.Limit
+			if c.Ctx.P > 30 {
+				c.Ctx.P = 30
+			}
+		} else if gen.Pick(t, 8, "farexp") == 0 {
 			c.X.Exp += int32(rapid.IntRange(-5000, 5000).Draw(t, "far"))
 		} else if gen.Pick(t, 8, "edge") == 0 {
 			// just outside |x-1| <= 0.1, where Ln switches from its power series to the iteration
@@ -92,7 +132,7 @@ func genCase(t *rapid.T) arith.Case {
 		if gen.Pick(t, 40, "atlimit") == 1 {
 			// a small integer power whose exact value fits and lands within a few decades of the
 			// package's exponent limits (the working context of Pow has the same limits)
-			n := rapid.IntRange(2, 9).Draw(t, "aln")
+			n := rapid.IntRange(1, 9).Draw(t, "aln")
 			co := rapid.IntRange(1, 99).Draw(t, "alc")
 			e := (gen.Limit - rapid.IntRange(0, 45).Draw(t, "alr")) / n
 			if rapid.Bool().Draw(t, "allow") {
@@ -101,8 +141,11 @@ func genCase(t *rapid.T) arith.Case {
 				e -= 20 // leave room for the digits of the power below +100000
 			}
 			c.X = core.Dec{Coeff: fmt.Sprint(co), Exp: int32(e)}
-			c.Y = core.Dec{Coeff: fmt.Sprint(n)}
+			c.Y = core.Dec{Coeff: fmt.Sprint(n), Neg: gen.Pick(t, 3, "alyneg") == 0}
 			c.Ctx.Emax, c.Ctx.Emin = gen.Limit, -gen.Limit
+			if gen.Pick(t, 4, "alemin") == 0 {
+				c.Ctx.Emin = -int32(rapid.IntRange(1000, 9000).Draw(t, "aleminv"))
+			}
 			if c.Ctx.P < 20 {
 				c.Ctx.P = 20
 			}
@@ -118,7 +161,7 @@ func genCase(t *rapid.T) arith.Case {
 				one.Add(one, big.NewInt(int64(m)))
 			}
 			c.X = core.Dec{Coeff: one.String(), Exp: int32(-(k + 2))}
-			y := gen.DigitsN(t, k, 0, "bpy")
+			y := gen.DigitsN(t, k, 9, "bpy") // random digits
 			c.Y = core.Dec{Coeff: y, Neg: gen.Pick(t, 4, "bpneg") == 0}
 			if gen.Pick(t, 3, "bpfold") == 0 {
 				// the same magnitude written with its zeros folded into the exponent: 2E+11
@@ -168,6 +211,9 @@ func enclose(c arith.Case) (e encl, neg bool) {
 		r := f.Exp(f.FromDec(c.X.Neg, c.X.Big(), int64(c.X.Exp)))
 		return encl{signedExact(r.Lo, w, r.N), signedExact(r.Hi, w, r.N), true}, false
 	case "ln", "log10":
+		if e, ok := encloseNearOne(c); ok {
+			return e, false
+		}
 		// near 1 the result is tiny: |ln x| >= |x-1|/2, so extra digits = digits of 1/(x-1)
 		w += int64(len(c.X.Coeff)) + 10
 		f := ref.NewFP(w)
@@ -191,6 +237,44 @@ func enclose(c arith.Case) (e encl, neg bool) {
 		return encl{signedExact(r.Lo, w, r.N), signedExact(r.Hi, w, r.N), true}, false
 	}
 	return encl{}, false
+}
+
+// encloseNearOne handles x = 1 + d with |d| < 10^-(P+12) without thousands of digits of
+// working precision: ln(1+d) lies in [d - d^2, d] for |d| < 1/2 (both signs), so with
+// D = d*10^k scaled into [1, 10) the value is D*10^-k with a relative slack far below one
+// unit of the result; Log10 divides that by an enclosure of ln 10.
+func encloseNearOne(c arith.Case) (encl, bool) {
+	p := int64(c.Ctx.P)
+	// d = x - 1 exactly: coefficient - 10^-exp at exponent exp (exp < 0 here)
+	if c.X.Exp >= 0 {
+		return encl{}, false
+	}
+	d := c.X.Big()
+	d.Sub(d, ref.Pow10(-int64(c.X.Exp)))
+	if d.Sign() == 0 {
+		return encl{}, false
+	}
+	nd := ref.NDigits(new(big.Int).Abs(d))
+	adj := int64(c.X.Exp) + nd - 1
+	if adj > -(p + 12) {
+		return encl{}, false
+	}
+	w := p + 40
+	f := ref.NewFP(w)
+	// keep the leading w+5 digits of d (the rest is below the slack added next)
+	mant, mexp := new(big.Int).Abs(d), int64(c.X.Exp)
+	if nd > w+5 {
+		cut := nd - (w + 5)
+		mant.Quo(mant, ref.Pow10(cut))
+		mexp += cut
+	}
+	D := f.FromDec(d.Sign() < 0, mant, mexp-adj) // |D| in [1, 10)
+	slack := ref.Pow10(w - p - 10)                // 10^-(p+10): covers d^2 and the truncated tail
+	r := ref.Iv{Lo: new(big.Int).Sub(D.Lo, slack), Hi: new(big.Int).Add(D.Hi, slack)}
+	if c.Op == "log10" {
+		r = f.Div(r, f.Ln10())
+	}
+	return encl{signedExact(r.Lo, w, adj), signedExact(r.Hi, w, adj), true}, true
 }
 
 // cmpSigned compares the signed values a and b exactly.
